@@ -19,6 +19,7 @@ import CambrianModel.Lemmas.SelLemmas
 import Mathlib.Tactic.NormNum
 import CambrianModel.Lemmas.LiveLemmas
 import CambrianModel.Model.Crossover
+import CambrianModel.Model.CrossGen
 namespace Cambrian.Props
 open Cambrian Cambrian.Sel
 
@@ -62,6 +63,16 @@ example :
     let p2 : VNode := .sub (.cons "a" (.bool false) (.cons "b" (.bool false) .nil))
     let mixed : VNode := .sub (.cons "a" (.bool true) (.cons "b" (.bool false) .nil))
     crossAcc .one .mid s [p1, p2] mixed = true := by decide
+
+/-- the ALGORITHM `crossGen` produces that mixed offspring for a suitable random stream (crossover decided at the root,
+    the first parent selected for field `a`, the second for field `b`) - so mixed offspring are reachable by the code-shaped
+    model, not only admitted by the acceptor -/
+example :
+    let s : SNode := .sub (.cons "a" (.bool true) (.cons "b" (.bool true) .nil))
+    let p1 : VNode := .sub (.cons "a" (.bool true) (.cons "b" (.bool true) .nil))
+    let p2 : VNode := .sub (.cons "a" (.bool false) (.cons "b" (.bool false) .nil))
+    let o : CrossOracle := { decide := fun _ => true, sel := fun p _ => if p == ["b"] then 1 else 0, shuffle := fun _ l => l }
+    crossGen o s [] [p1, p2] = .sub (.cons "a" (.bool true) (.cons "b" (.bool false) .nil)) := by decide
 
 /-- non-vacuity of liveness: a value in which every discrete kind occurs, and an accepted mutation of it -/
 example :
